@@ -114,7 +114,7 @@ def _render_file(R, path, repo, canary_fn, canary_kind, depth):
             _render_file(R, inc, repo, canary_fn, canary_kind, depth + 1)
             i += 1
         elif d.startswith('checkdecl'):
-            parts = [p.strip() for p in d[len('checkdecl'):].split('::', 3)]
+            parts = [p.strip() for p in re.split(r'\s+::\s+', d[len('checkdecl'):].strip(), maxsplit=3)]
             # the signature may itself contain '::' -> split only 3 times
             f, cont, name, want = parts
             src = load_src(repo, f)
@@ -124,14 +124,14 @@ def _render_file(R, path, repo, canary_fn, canary_kind, depth):
             R.checkdecls.append((f, cont, name))
             i += 1
         elif d.startswith('struct'):
-            f, name = [p.strip() for p in d[len('struct'):].split('::')]
+            f, name = [p.strip() for p in re.split(r'\s+::\s+', d[len('struct'):].strip())]
             src = load_src(repo, f)
             txt = _clean_struct(X.extract_struct(src, name))
             for tl in txt.split('\n'):
                 R.add(tl, ('src', f, 0))
             i += 1
         elif d.startswith('extract'):
-            parts = [p.strip() for p in d[len('extract'):].split('::')]
+            parts = [p.strip() for p in re.split(r'\s+::\s+', d[len('extract'):].strip())]
             if len(parts) < 3:
                 raise X.ExtractError('%s:%d: bad extract directive' % (rel, i + 1))
             f, cont, name = parts[0], parts[1], parts[2]
@@ -190,7 +190,7 @@ def _render_file(R, path, repo, canary_fn, canary_kind, depth):
                 else:
                     R.add(text, org)
             R.fn_ranges.append(dict(name=opts.get('rename', name), src_name=name, container=cont, file=f, start=start,
-                                    end=len(R.lines), meta=meta, opts=opts, spec_lines=spec_line_count))
+                                    end=len(R.lines), meta=meta, opts=opts, spec_lines=spec_line_count, from_include=depth > 0))
         else:
             raise X.ExtractError('%s:%d: unknown directive `%s`' % (rel, i + 1, d))
 
